@@ -1,0 +1,73 @@
+// Copyright 2017 Pilosa Corp.
+//
+// Licensed under the Apache License, Version 2.0 (the "License");
+// you may not use this file except in compliance with the License.
+// You may obtain a copy of the License at
+//
+//     http://www.apache.org/licenses/LICENSE-2.0
+//
+// Unless required by applicable law or agreed to in writing, software
+// distributed under the License is distributed on an "AS IS" BASIS,
+// WITHOUT WARRANTIES OR CONDITIONS OF ANY KIND, either express or implied.
+// See the License for the specific language governing permissions and
+// limitations under the License.
+
+//go:build verif
+// +build verif
+
+package pilosa
+
+import (
+	"fmt"
+	"sort"
+	"strings"
+
+	"github.com/pkg/errors"
+)
+
+// Export shims for the verification harness (/verif, property C23). Add-only, tag-guarded.
+
+// VerifC23SetState forces the cluster state seen by API.validate, without running the
+// state-change side effects of cluster.unprotectedSetState.
+func VerifC23SetState(api *API, state string) {
+	api.cluster.mu.Lock()
+	api.cluster.state = state
+	api.cluster.mu.Unlock()
+}
+
+// VerifC23IsNotAllowed reports whether err is the method-not-allowed error of API.validate.
+func VerifC23IsNotAllowed(err error) bool {
+	if err == nil {
+		return false
+	}
+	_, ok := errors.Cause(err).(apiMethodNotAllowedError)
+	return ok
+}
+
+// VerifC23RecalcMessage is the wire form of a RecalculateCaches cluster message.
+func VerifC23RecalcMessage() []byte { return []byte{messageTypeRecalculateCaches} }
+
+// VerifC23Fingerprint renders schema, per-fragment bit counts, available shards and the size of
+// the key translation log: everything a refused request must leave untouched.
+func VerifC23Fingerprint(api *API) string {
+	var parts []string
+	for _, idx := range api.holder.Indexes() {
+		parts = append(parts, fmt.Sprintf("index %s keys=%v exist=%v", idx.Name(), idx.Keys(), idx.Options().TrackExistence))
+		for _, f := range idx.Fields() {
+			o := f.Options()
+			parts = append(parts, fmt.Sprintf("field %s/%s type=%s keys=%v min=%d max=%d shards=%v", idx.Name(), f.Name(), o.Type, o.Keys, o.Min, o.Max,
+				f.AvailableShards().Slice()))
+			for _, v := range f.views() {
+				for _, frag := range v.allFragments() {
+					frag.mu.RLock()
+					n := frag.storage.Count()
+					frag.mu.RUnlock()
+					parts = append(parts, fmt.Sprintf("frag %s/%s/%s/%d bits=%d", idx.Name(), f.Name(), v.name, frag.shard, n))
+				}
+			}
+		}
+	}
+	sort.Strings(parts)
+	parts = append(parts, fmt.Sprintf("translate-log-bytes=%d", api.holder.translateFile.size()))
+	return strings.Join(parts, ";")
+}
